@@ -3,6 +3,7 @@
 //!
 //!   mac <prefixhex|UNSET> <tags> <cid> <invocations> => <obs>
 //!     tags / cid as in engine fmt;  invocations: `;` list of <entry>/<keyhex>/<value>/<tagpairs>/<sink>
+//!       or the marker SET: invocations before it run with no global client, then it is installed
 //!       entry    : one of the 22 value-typed entry points (count_i64 … set_i64; no incr/decr)
 //!       tagpairs : `-` | comma list of <khex>:<vhex>  (0..4 pairs: macro arity is static)
 //!       sink     : a | r<k>
@@ -134,7 +135,7 @@ fn run_child(line: &str) -> String {
     if f.len() != 5 || f[0] != "mac" {
         return "malformed".to_string();
     }
-    if f[1] != "UNSET" {
+    let install = |f: &Vec<&str>| {
         let pfx = s_of(f[1]);
         let mut b = StatsdClient::builder(&pfx, Sink)
             .with_error_handler(|e| EVENTS.lock().unwrap().push(format!("H{}", merr_repr(&e))));
@@ -154,9 +155,21 @@ fn run_child(line: &str) -> String {
             b = b.with_container_id(s_of(f[3]));
         }
         cadence_macros::set_global_default(b.build());
+    };
+    // invocations before the marker `SET` run with no global client; the marker installs it (same thread)
+    let late = f[4].split(';').any(|x| x == "SET");
+    if f[1] != "UNSET" && !late {
+        install(&f);
     }
     let mut obs = Vec::new();
     for (i, inv) in f[4].split(';').enumerate() {
+        if inv == "SET" {
+            if f[1] != "UNSET" {
+                install(&f);
+            }
+            obs.push("set".to_string());
+            continue;
+        }
         let p: Vec<&str> = inv.split('/').collect();
         if p.len() != 5 {
             obs.push("malformed".to_string());
@@ -290,6 +303,10 @@ fn main() {
             ));
             if unset && invs.len() >= 3 {
                 break;
+            }
+            // every 5th configured case installs the global only after two invocations (which must panic)
+            if !unset && c % 5 == 4 && invs.len() == 2 {
+                invs.push("SET".to_string());
             }
         }
         let case = format!("mac {} {} {} {}", prefix, if tags.is_empty() { "-".to_string() } else { tags.join(",") }, cid, invs.join(";"));
